@@ -20,7 +20,7 @@ func init() {
 			"(cannot fail for the fixed sizes read), or (e) it is the loadSegments failure of a candidate that passed framing and JSON validation (table exception). " +
 			"Anything else – a candidate failing validation fails the whole open – is a violation.",
 		Props: []string{"C05"},
-		Floor: 5,
+		Floor: 4,
 		Run:   ruleScan,
 		Exceptions: []string{
 			"ScanFooter: return after (*Footer).loadSegments error – by DUR-2/DUR-3 a footer that passed framing and JSON validation only refers to data synced before it was written, so this failure is a resource/I-O fault (C06), not a crash artefact",
